@@ -270,4 +270,180 @@ class TracingNodeForward(Contract):
                  force_str(I, ctx, recs[0]["args"]["parameter"]) == want and recs[0]["args"]["period"] == "2020-01-01")]
 
 
-CONTRACTS = [GetParametersAtInstant(), LoadParameters(), ReformModifyParameters(), TracingNodeForward()]
+VPN = "openfisca_core.parameters.vectorial_parameter_node_at_instant.VectorialParameterNodeAtInstant"
+ZONES = ("zone_1", "zone_2", "zone_3")
+
+
+_VALS, _KEEP = {}, []
+
+
+def group_view(I, ctx, tag, name="benefit", nested=False):
+    """a ParameterNodeAtInstant-like group of three leaves (symbolic values); with `nested`, one level of two such groups"""
+    cls = I.resolve_qualified(NODE_AT)
+    if nested:
+        kids = [(k, group_view(I, ctx, f"{tag}_{k}", name=f"{name}.{k}")) for k in ("couple", "single")]
+        vals = {k: _VALS[id(v)] for k, v in kids}
+        o = Obj(cls, {"_name": name, "_instant_str": "2015-01-01", "_children": dict_of([(k, v) for k, v in kids][::-1])}, label="group:" + tag)
+        _VALS[id(o)] = vals
+        _KEEP.append(o)
+        return o
+    vals = {z: ctx.fresh_real(f"{tag}_{z}") for z in ZONES}
+    # children stored in an order that is not the sorted one
+    o = Obj(cls, {"_name": name, "_instant_str": "2015-01-01", "_children": dict_of([(z, Sym(vals[z])) for z in (ZONES[1], ZONES[2], ZONES[0])])},
+            label="group:" + tag)
+    _VALS[id(o)] = vals
+    _KEEP.append(o)
+    return o
+
+
+class VectorialBuild(Contract):
+    name = f"{VPN}.build_from_node"
+    prop = ("C07",)
+    top_level = True
+    cases = ("leaves", "nested", "leaves-after-another-tree-of-the-same-name-and-date")
+    descr = ("the vectorial form of a parameter group holds, under each member's name, that member's value in the group it was built "
+             "from - also when a group of the same name and date from another tree (reloaded parameters, a reform) was vectorised before")
+    inline = (f"{NODE_AT}.__getitem__", f"{NODE_AT}.__getattr__", f"{VPN}.__init__")
+
+    def setup(self, I, ctx, case):
+        a = {"__case": case}
+        if case.endswith("another-tree-of-the-same-name-and-date"):
+            other = group_view(I, ctx, "other")
+            f, _ = self.target(I)
+            ctx.depth += 1
+            saved = dict(I.contracts)
+            try:
+                I.contracts.update(self.local_contracts())
+                a["__earlier"] = I.inline_call(ctx, f, [], {"node": other})
+            finally:
+                I.contracts = saved
+                ctx.depth -= 1
+        node = group_view(I, ctx, "g", nested=(case == "nested"))
+        a["node"] = node
+        return a
+
+    @staticmethod
+    def local_contracts():
+        return {f"{VPN}.check_node_vectorisable": rec(f"{VPN}.check_node_vectorisable", "check_vectorisable", [("return", None)])}
+
+    def post(self, I, ctx, a, out, old):
+        from pyvc import nparr
+        node = a["node"]
+        if out[0] != "return" or not isinstance(out[1], Obj):
+            return [("returns-a-vectorial-node", False)]
+        r = out[1]
+        vec = r.fields.get("vector")
+        res = [("keeps-name-and-date", r.fields.get("_name") == node.fields["_name"] and r.fields.get("_instant_str") == node.fields["_instant_str"]),
+               ("holds-a-record", isinstance(vec, nparr.RecArr))]
+        if not isinstance(vec, nparr.RecArr):
+            return res
+
+        def same(v, vals, path):
+            out2 = [(f"{path}members-under-their-names-in-sorted-order", v.names == sorted(vals))]
+            for k, want in vals.items():
+                got = v.fields.get(k)
+                if isinstance(want, dict):
+                    if isinstance(got, nparr.RecArr):
+                        out2 += same(got, want, f"{path}{k}.")
+                    else:
+                        out2.append((f"{path}{k}-is-a-record-of-its-own-members", False))
+                else:
+                    out2.append((f"{path}{k}-holds-the-member's-value-in-this-group", B.zreal(got) == want if got is not None else False))
+            return out2
+        return res + same(vec, _VALS[id(node)], "")
+
+
+class KeyCodes:
+    """a vector of keys: element i is the name ZONES[code(i)] when 0 <= code(i) < 3, some other string otherwise"""
+
+    def __init__(self, ctx):
+        from pyvc import nparr
+        self.L = ctx.fresh_int("L")
+        ctx.assume(self.L >= 1)
+        self.CODE = z3.Function(ctx.fresh_name("KEYCODE"), z3.IntSort(), z3.IntSort())
+
+        def elem(i):
+            code = self.CODE(B._z(i))
+
+            def eq(ctx2, other):
+                o = B.enum_str(other)
+                if isinstance(o, str):
+                    return (code == ZONES.index(o)) if o in ZONES else z3.BoolVal(False) if False else (code == -1 - (abs(hash(o)) % 1000))
+                if isinstance(other, Opaque) and other.attrs.get("keycode") is not None:
+                    return code == other.attrs["keycode"]
+                return False
+            return Opaque(None, "key", {"eq": eq, "keycode": code})
+        self.array = nparr.NArr(self.L, elem, "str", "keys")
+
+
+class VectorialGetItem(Contract):
+    name = f"{VPN}.__getitem__"
+    prop = ("C07",)
+    top_level = True
+    cases = ("key-vector", "name")
+    descr = ("indexing a vectorial group by a vector of names gives, element by element, the value of the member named - the same as "
+             "reading that member alone; a name that is no member's raises ParameterNotFoundError; a plain name gives the member")
+    inline = (f"{VPN}.__getattr__", f"{VPN}.__init__")
+
+    def setup(self, I, ctx, case):
+        from pyvc import nparr
+        vals = {z: ctx.fresh_real("v_" + z) for z in ZONES}
+        vec = nparr.RecArr(sorted(ZONES), {z: Sym(vals[z]) for z in ZONES})
+        node = Obj(I.resolve_qualified(VPN), {"vector": vec, "_name": "benefit", "_instant_str": "2015-01-01"}, label="vectorial")
+        keys = KeyCodes(ctx)
+        ctx.ghost["keys"] = keys
+        return {"self": node, "key": keys.array if case == "key-vector" else ZONES[1], "__vals": vals, "__keys": keys, "__case": case}
+
+    @staticmethod
+    def local_contracts():
+        from pyvc import nparr
+
+        def contains_nan(I, ctx, a):
+            # the result of numpy.select with a NaN default: NaN exactly where no name matched
+            v = a["vector"]
+            i = z3.Int(ctx.fresh_name("i_nan"))
+            none = []
+            e = v.elem(i)
+            if not isinstance(e, B.Choice):
+                raise Unsupported("contains_nan on something else than a select result")
+            return B.wrap(z3.Exists([i], z3.And(i >= 0, i < B._z(v.n), z3.Not(z3.Or(*[c for c, _ in e.alts])))))
+        H = "openfisca_core.parameters.helpers.contains_nan"
+        return {H: rec(H, "contains_nan", [("return", contains_nan)])}
+
+    def post(self, I, ctx, a, out, old):
+        from pyvc import nparr
+        vals, keys = a["__vals"], a["__keys"]
+        if a["__case"] == "name":
+            return [("a-plain-name-gives-the-member", out[0] == "return" and not isinstance(out[1], (Obj, type(None))) and
+                     B._zb(B.eq_formula(I, ctx, out[1], Sym(vals[ZONES[1]]))) is not False),
+                    ("with-its-value", B.zreal(out[1]) == vals[ZONES[1]] if out[0] == "return" else False)]
+        j = z3.Int(ctx.fresh_name("j_bad"))
+        unknown = z3.Exists([j], z3.And(j >= 0, j < keys.L, z3.Or(keys.CODE(j) < 0, keys.CODE(j) >= 3)))
+        if out[0] == "raise":
+            return [("refused-only-for-a-name-that-is-no-member's", z3.And(z3.BoolVal(out[1].cls.name == "ParameterNotFoundError"), unknown))]
+        r = out[1]
+        if not isinstance(r, nparr.NArr):
+            return [("returns-one-value-per-key", False)]
+        i = ctx.fresh_int("i")
+        code = keys.CODE(i)
+        want = z3.If(code == 0, vals[ZONES[0]], z3.If(code == 1, vals[ZONES[1]], vals[ZONES[2]]))
+        e = r.elem(i)
+        got = B.zreal(B.choice_value(e)) if hasattr(B, "choice_value") and isinstance(e, B.Choice) else None
+        if got is None and isinstance(e, B.Choice):
+            got = B.zreal(Sym(_choice_term(e)))
+        elif got is None:
+            got = B.zreal(e)
+        return [("accepted-only-when-every-name-is-a-member's", z3.Not(unknown)),
+                ("one-value-per-key", B._z(r.n) == keys.L),
+                ("element-by-element-the-value-of-the-member-named", z3.Implies(z3.And(i >= 0, i < keys.L), got == want))]
+
+
+def _choice_term(ch):
+    """first-match value of a Choice as a z3 real term (default taken as an unconstrained value)"""
+    t = z3.Real("unmatched_default")
+    for c, v in reversed(ch.alts):
+        t = z3.If(c, B.zreal(v), t)
+    return t
+
+
+CONTRACTS = [GetParametersAtInstant(), LoadParameters(), ReformModifyParameters(), TracingNodeForward(), VectorialBuild(), VectorialGetItem()]
